@@ -250,6 +250,10 @@ class FnTranslator:
                 if g:
                     return g["ret"]
                 j = "::".join(segs)
+                if j in ("likely", "unlikely") and len(e[2]) == 1:
+                    return self.stype(e[2][0])
+                if j == "usize::from" and len(e[2]) == 1:
+                    return "usize"
                 if j in ("cmp::min", "cmp::max", "core::cmp::min", "core::cmp::max", "usize::max", "usize::min"):
                     return self.stype(e[2][0]) or self.stype(e[2][1])
                 if j in ("mem::size_of", "core::mem::size_of"):
@@ -262,9 +266,13 @@ class FnTranslator:
                     return segs[0]
             return None
         if k == "if":
-            return self.stype(("block",) + e[2][1:]) if e[2][0] == "block" else None
+            t = self.stype(e[2]) if e[2][0] == "block" else None
+            if t is None and e[3] is not None:
+                t = self.stype(e[3])
+            return t
         if k == "block":
-            return self.stype(e[2]) if e[2] is not None and not e[1] else None
+            # the tail may mention locals of the block: those are unknown here and give None
+            return self.stype(e[2]) if e[2] is not None else None
         return None
 
     def class_of(self, exprs, expect=None):
@@ -510,6 +518,15 @@ class FnTranslator:
                 return "(some %s)" % self.tr_expr(args[0], exp)
             if segs[0] in self.w.newtypes and len(args) == 1:
                 return self.tr_expr(args[0], self.w.newtypes[segs[0]])
+        if j in ("likely", "unlikely") and len(args) == 1 and targs is None:
+            # branch-prediction hints of hashbrown's `util` module: the identity on `bool`
+            if self.stype(args[0]) != "bool":
+                self.err("`%s(..)` on an argument that is not known to be a bool" % j)
+            return self.tr_expr(args[0], "bool")
+        if j == "usize::from" and len(args) == 1 and targs is None:
+            if self.stype(args[0]) != "bool":
+                self.err("`usize::from(..)` is only supported on a bool argument")
+            return "(if %s then 1 else 0)" % self.tr_expr(args[0], "bool")
         g = self.find_fn(segs)
         if g and targs is None:
             if g["has_self"]:
@@ -599,6 +616,49 @@ class FnTranslator:
         b = self.tr_expr(e[3], expect)
         self.no_try -= 1
         return "(if %s then %s else %s)" % (c, a, b)
+
+    @staticmethod
+    def if_mutates(e):
+        """value `if` one of whose branch blocks contains an assignment statement (shallow)"""
+        def blk(b):
+            if b is None:
+                return False
+            if b[0] == "if":
+                return FnTranslator.if_mutates(b)
+            return b[0] == "block" and any(s[0] == "semi" and s[1][0] == "assign" for s in b[1])
+        return e[0] == "if" and (blk(e[2]) or blk(e[3]))
+
+    def x_if_mut(self, e, expect):
+        """`if c { self.f op= ..; v1 } else { v2 }` used as a value in a `&mut self` body:
+        a pair `(value, self_)`."""
+        if e[3] is None:
+            self.err("`if` without `else` used as a value")
+        self.no_try += 1
+        c = self.tr_expr(e[1])
+        a = self.x_block_mut(e[2], expect)
+        b = self.x_if_mut(e[3], expect) if e[3][0] == "if" else self.x_block_mut(e[3], expect)
+        self.no_try -= 1
+        return "(if %s then %s else %s)" % (c, a, b)
+
+    def x_block_mut(self, blk, expect):
+        stmts, tail = blk[1], blk[2]
+        if tail is None:
+            self.err("block used as a value has no tail expression")
+        self.scopes.append({})
+        parts = []
+        for s in stmts:
+            if s[0] == "skipmacro":
+                continue
+            if s[0] in ("let", "const"):
+                parts.extend(self.let_lines(s))
+                continue
+            if s[0] == "semi" and s[1][0] == "assign":
+                parts.append(self.assign_line(s[1]))
+                continue
+            self.err("statement form `%s` is not supported inside a value block" % (s[1][0] if s[0] == "semi" else s[0]))
+        t = self.tr_expr(tail, expect)
+        self.scopes.pop()
+        return "(" + "; ".join(parts + ["(%s, self_)" % t]) + ")"
 
     def x_iflet(self, e, expect):
         pat, scrut, blk, els = e[1], e[2], e[3], e[4]
@@ -733,6 +793,9 @@ class FnTranslator:
             if e[0] == "closure":
                 rhs = self.tr_expr(e)
                 return ["let %s := %s" % (self.bind(pat[1], None, "closure"), rhs)]
+            if self.if_mutates(e):
+                rhs = self.x_if_mut(e, t)
+                return ["let (%s, self_) := %s" % (self.bind(pat[1], t), rhs)]
             rhs = self.tr_expr(e, t)
             return ["let %s := %s" % (self.bind(pat[1], t), rhs)]
         if pat[0] == "p_wild":
@@ -859,8 +922,12 @@ class FnTranslator:
         self.err("unsupported statement `%s`" % s[0])
 
     def tr_assign(self, x, rest, tail, ind):
-        op, lhs, rhs = x[1], x[2], x[3]
         self.binds = []
+        line = self.assign_line(x)
+        return self.with_binds(ind, lambda i: [I(i) + line] + self.tr_stmts(rest, tail, i))
+
+    def assign_line(self, x):
+        op, lhs, rhs = x[1], x[2], x[3]
         val = rhs if op == "=" else ("bin", op[:-1], lhs, rhs)
         if lhs[0] == "field" and lhs[1] == ("path", ("self",), None):
             if self.self_kind not in ("&mut self", "mut self"):
@@ -882,7 +949,7 @@ class FnTranslator:
             line = "let %s := %s" % (self.bind(nm, old[1], old[2] if old[2] != "param" else "local"), v)
         else:
             self.err("unsupported assignment target")
-        return self.with_binds(ind, lambda i: [I(i) + line] + self.tr_stmts(rest, tail, i))
+        return line
 
     def tr_tail_expr(self, tail, ind):
         if tail is None:
